@@ -26,6 +26,8 @@ fn build(args: BuildArgs) -> anyhow::Result<Option<usize>> {
         dumb_console = DumbConsoleProgress::new(args.verbose);
         &dumb_console
     };
+    #[cfg(feature = "verif")]
+    let progress: &dyn Progress = crate::verif::progress_override().unwrap_or(progress);
 
     let build_filename = args.build_filename.as_deref().unwrap_or("build.ninja");
     let mut state = trace::scope("load::read", || load::read(build_filename))?;
